@@ -43,6 +43,27 @@ def analysable_bodies(prog, keys):
     return out
 
 
+def field_update_key(prog, b, o):
+    """a second, function-independent name for a checked arithmetic site whose result updates a named field
+    (Type.field op= ...): the same defect keeps this name when the statement is moved into a helper"""
+    if not o.kind.startswith("overflow:") or o.body != b.key:
+        return None
+    t = b.blocks[o.bi]["term"]
+    if t.get("k") != "assert" or t.get("t") is None:
+        return None
+    nxt = b.blocks[t["t"]]["stmts"]
+    if not nxt:
+        return None
+    pp = nxt[0]["place"]["p"]
+    if pp and isinstance(pp[-1], dict) and pp[-1].get("n") and pp[-1].get("a") and nxt[0]["rv"].get("k") == "use":
+        adt = prog.adts.get(pp[-1]["a"], {}).get("pretty", pp[-1]["a"])
+        same = any(isinstance(op.get("c", op.get("m", {})).get("p", [None])[-1:] and op.get("c", op.get("m", {})).get("p", [None])[-1], dict) and
+                   op.get("c", op.get("m", {})).get("p")[-1].get("n") == pp[-1]["n"] for op in t.get("ops", []) if isinstance(op, dict))
+        if same:
+            return "%s.%s|%s" % (adt, pp[-1]["n"], o.kind)
+    return None
+
+
 def panic_sites(env, rep, rule, entries, label):
     """R1 of C03 (and C19 R4, C20 R1): every panic-capable site in the functions reachable from
     `entries` is discharged under the function's entry state, or is a reviewed site / known finding."""
@@ -64,7 +85,7 @@ def panic_sites(env, rep, rule, entries, label):
                 rep.ok(rule, key, "discharged: %s" % (o.detail or o.kind), o.span, nontrivial=not triv)
             else:
                 rep.bad(rule, key, "panic-capable site not discharged (%s): %s" % (o.kind, o.detail), o.span,
-                        detail={"function": o.body, "kind": o.kind, "facts": o.detail, "entry_set": label})
+                        detail={"function": o.body, "kind": o.kind, "facts": o.detail, "entry_set": label}, alt=field_update_key(prog, b, o))
         # every external callee must be modelled or listed as non-panicking
         for bi, t in b.calls():
             if it.entry_states.get(bi) is None:
